@@ -15,7 +15,33 @@ import subprocess
 import sys
 
 SRC = sys.argv[1] if len(sys.argv) > 1 else "/tmp/seed"
+ROUND = sys.argv[2] if len(sys.argv) > 2 else ""   # "" for the first round, "r2" for the second
 DST = "/verif/seeded"
+
+NEEDS_R2 = {
+    "C07_r2m1": "a dict literal with two or more entries whose non-String key is in the 2nd or a later entry, then :resume: popped pairs are pushed back in the opposite order (same message, different position)",
+    "C07_r2m2": "an error raised by the return-type check at frame exit (wrong type, early return, unknown type), then :resume: eval()'s nothing-pending shortcut answers Unit",
+    "C08_r2m1": "the last toplevel expression of the request is a `for` loop, an interrupt lands during it, :resume: stop_at_expr_id is only restored on the success path, the resumed loop stops at loop entry",
+    "C08_r2m2": "the interrupt is observed exactly at the FINAL step of the request's last toplevel expression: the check moved after the step returns Interrupted instead of the finished value",
+    "C09_r2m1": "`x += e` with x unbound or non-Int, then :resume twice: the right-hand value is popped before the checks and not restored, the second resume pops an empty stack",
+    "C09_r2m2": "call f(a), then eval_up_to on an edited f(a, b) with the offset on b: prev_args[i] out of bounds",
+    "C10_r2m1": "an interrupt arriving WHILE the last statement of a function body executes: a second check at frame return reports it without clearing the flag; after :abort the first evaluation is cancelled",
+    "C10_r2m2": "a stop inside a call made from a toplevel block with locals, then :abort: the innermost frame is cleaned instead of frame 0",
+    "C11_r2m1": "the last input is a toplevel `+=`/`-=` and the previous expression input ended in a call of a user function: the update no longer pushes its Unit, a stale value is reported",
+    "C11_r2m2": "an input that places a let / assignment / expression BEFORE a trailing definition: the expressions are skipped",
+    "C24_r2m1": "sandboxed-test where the first run exhausts the tick budget before reaching the unsafe call: the retry with a larger budget starts from an Env cloned before enforce_sandbox was set",
+    "C24_r2m2": "the built-in function VALUE handed to a prelude higher-order method ([path].map(fs::remove_file)): calls from standard-library frames are trusted",
+    "C25_r2m1": "the limit error lands in an earlier evaluation of the same run and a later one loops: tick limit fires only on the exact tick",
+    "C25_r2m2": "a `continue` executed while a later statement of the same body is a loop that has not started: index scan never advances (native spin)",
+    "C26_r2m1": "SIGINT while a test body runs and every earlier test passed: the interrupted test is never recorded (exit 0)",
+    "C26_r2m2": "two selected tests sharing a name with different verdicts: each occurrence runs the last definition's body",
+    "C28_r2m1": "a frame whose JSON body has an error before its last byte (bad token mid-body, trailing garbage): streaming parse leaves the rest unread, framing never resynchronises",
+    "C28_r2m2": "a didOpen for a URI the store already holds (open twice, or didChange on a never-opened URI then didOpen): the old text is kept",
+    "C30_r2m1": "the flusher's clone-send-clear running while the evaluator appends",
+    "C30_r2m2": "print quota landing inside a multi-byte character",
+    "C31_r2m1": "an interrupt followed by another request for the same session before the running eval next checks the flag: dispatch clears the flag",
+    "C31_r2m2": "a running eval with slow steps: flag checked every 10 000 ticks",
+}
 
 NEEDS = {
     "C07_m1": "a user function with >= 2 type-hinted parameters called with an ill-typed argument (arguments not all equal), then :resume: check_param_types pushes the arguments back in call order instead of stack order",
@@ -53,7 +79,8 @@ NEEDS = {
     "C31_m3": "a running eval whose individual steps are slow: flag checked only every 1024 ticks",
 }
 
-HELPERS = ["sess.py", "gsession.py", "check_nrepl_interrupt.py", "jsession.py", "democheck.py", "c11_harness.py", "lspclient.py",
+HELPERS = ["jsdrive.py", "nrepl_lib.py", "run_nrepl_goldens.py", "check_nrepl_reftests.py", "m1_demo_tests.gdn", "m1_demo_playground.gdn",
+           "m2_demo_tests.gdn", "m2_demo_playground.gdn", "sess.py", "gsession.py", "check_nrepl_interrupt.py", "jsession.py", "democheck.py", "c11_harness.py", "lspclient.py",
            "nrepl_client.py", "check_nrepl_goldens.py", "interrupt_eval_slow.jsonl"]
 
 
@@ -70,7 +97,7 @@ def main():
             diff = os.path.join(d, f"m{n}.diff")
             if not os.path.exists(diff):
                 continue
-            key = f"{pid}_m{n}"
+            key = f"{pid}_{ROUND}m{n}"
             out = os.path.join(DST, key)
             os.makedirs(out, exist_ok=True)
             shutil.copy(diff, os.path.join(out, "patch.diff"))
@@ -84,11 +111,11 @@ def main():
                 if os.path.exists(os.path.join(d, h)):
                     shutil.copy(os.path.join(d, h), os.path.join(out, h))
             confirm = {}
-            cf = os.path.join(SRC, "confirm", f"{key}.json")
+            cf = os.path.join(SRC, "confirm", f"{pid}_m{n}.json")
             if os.path.exists(cf):
                 confirm = json.load(open(cf))
             caught = {}
-            lf = os.path.join(SRC, "results2", f"{key}.log")
+            lf = os.path.join(SRC, "results2" if not ROUND else "results", f"{pid}_m{n}.log")
             if os.path.exists(lf):
                 txt = open(lf, errors="replace").read()
                 caught = {"exit": 1 if "VIOLATION property=" in txt else 0,
@@ -99,7 +126,7 @@ def main():
                 "property_title": props.get(pid),
                 "written_by": "a sub-agent that was given only the property text and its own scratch worktree",
                 "base_commit": base,
-                "needs_to_manifest": NEEDS.get(key, "see description.md"),
+                "needs_to_manifest": NEEDS.get(key) or NEEDS_R2.get(key, "see description.md"),
                 "demonstration": sorted(os.path.basename(f) for f in glob.glob(os.path.join(out, f"m{n}_demo*"))),
                 "confirmed_by_me": {
                     "how": "tools/confirm_seed.sh in the scratch worktree: clean build + demonstration, change applied + build + "
